@@ -20,6 +20,7 @@ EXPLANATION = (
     " Added after seed round 7: D5 also requires that every extend() returns a database constructed by that call."
     " Added after seed round 8: D8 redirects are followed through the whole chain of extensions, oldest first, and every return path of the resolver consults the own table."
     " Added after seed round 9: D9 _get_head: scenario table over own entry x parent - the own head table wins, the parent is asked only without an own entry."
+    " Added after seed round 11: D10 no store into the redirect table sits on a path that is infeasible for an index owned by the parent (scenario: key 0, offset 5): redirects exist to re-route parent nodes."
 )
 TECHNIQUE = "static analysis: ownership / who-may-write rule with computed mutator set, decision-table extraction of the copy-on-write branch"
 LEVEL_TEXT = EXPLANATION
@@ -455,6 +456,29 @@ def rule_d9(repo, col):
     col.floor("D9.cases", n, 4)
 
 
+def rule_d10(repo, col):
+    """the redirect table exists for nodes of the PARENT (an own node can simply be overwritten; the copy-on-write branch of _add_head records one exactly when
+    `node < self.__offset`): no store into it sits on a path that is infeasible for a parent-owned index"""
+    c = repo.cls(MOD, "ClauseDB")
+    m = c.module
+    n = 0
+    for name, f in sorted(c.methods.items()):
+        if not any(isinstance(x, ast.Subscript) and isinstance(x.ctx, ast.Store) and norm(x.value) == "self.__node_redirect" for x in ast.walk(f.node)):
+            continue
+        for p_ in dtable.extract(f.node, opaque_loops=True):
+            keys = [a[0][len("self.__node_redirect["):-1] for fn, a, _ in p_.calls if fn == "<store>" and a and a[0].startswith("self.__node_redirect[")]
+            for k in keys:
+                n += 1
+                scen = [(k, 0), ("self.__offset", 5)]
+                blocked = [s_ for s_, t_, _ in p_.conds if k in s_ and "self.__offset" in s_ and dtable.eval_atom(s_, scen, None) is not None and dtable.eval_atom(s_, scen, None) != t_]
+                col.decide("D10", m, f.node, not blocked, "%s can record a redirect for a node of the parent (%s)" % (f.qualname, k),
+                           "%s stores self.__node_redirect[%s] only on a path that requires %s, which no node of the parent satisfies: redirects exist to re-route nodes the extension does "
+                           "not own - a placeholder the base program left for an undefined predicate is then never aliased to the library definition an extension imports "
+                           "(UnknownClause for member/2 although the extension loads library(lists))" % (f.qualname, k, " and ".join(blocked)),
+                           construct="%s: redirect only for own nodes" % f.qualname, function=f.qualname)
+    col.floor("D10.redirect_stores", n, 2)
+
+
 def run(repo, col):
     col.rule("D1", "_add_define_node writes through _add_head(create=True)")
     col.rule("D2", "_add_head copy-on-write branch")
@@ -472,3 +496,5 @@ def run(repo, col):
     rule_d8(repo, col)
     col.rule("D9", "_get_head: own head table before the parent's")
     rule_d9(repo, col)
+    col.rule("D10", "redirects can be recorded for nodes of the parent")
+    rule_d10(repo, col)
